@@ -159,11 +159,11 @@ def gen_wide_history(rng):
             t['ops'] = [t['ops'][0], ['store', t['ops'][0][1], ['f', rng.randrange(1, 90), rng.randrange(256)]]] + t['ops'][1:]
     for t in hist:
         if t['kind'] == 'commit' and rng.random() < 0.3:
-            t['fault'] = dict(at=rng.choice([1, 2, 2, 3, 3, 4, 4, 5, 6]), errno=rng.choice(['EIO', 'ENOSPC']))
-        elif rng.random() < 0.12:
-            t['rival'] = True
-    if not any(t.get('rival') for t in hist) and rng.random() < 0.6:
-        rng.choice(hist)['rival'] = True
+            t['fault'] = dict(at=rng.choice([1, 2, 2, 3, 3, 4, 4, 5, 6]), errno=rng.choice(['EIO', 'ENOSPC']),
+                              partial=rng.random() < 0.5, retry=rng.random() < 0.6)
+    cand = [t for t in hist if t['kind'] in ('commit', 'abort_after') and t['ops'] and not t.get('fault')]
+    if cand:
+        rng.choice(cand)['rival'] = True
     hist[0]['opts'] = dict(via=rng.choice(['direct', 'config', 'config']), create=rng.random() < 0.4,
                            quota=rng.choice([None, 10 ** 9, 10 ** 9, 2500]), blob_dir=rng.random() < 0.4)
     return hist
@@ -180,7 +180,7 @@ def boundary_histories():
                  ext=['f', meta[2], 33], ops=ops, save_index=False)
         d.update(kw)
         return d
-    empties = [txn(1, []), txn(2, [['store', 2 ** 64 - 1, ['f', 5, 1]], ['store', 0, ['f', 1, 2]]]),
+    empties = [txn(1, []), txn(2, [['store', 2 ** 64 - 1, ['f', 5, 1]], ['store', 0, ['f', 1, 2]]], rival=True),
                txn(3, [], meta=(0, 7, 0)), txn(4, [], kind='abort_after'), txn(5, [['delete', 2 ** 64 - 1]], save_index=True),
                txn(6, [['undo', 1], ['undo', 2]]), txn(7, [])]
     limits = [txn(1, [['store', 2 ** 63, ['f', 3, 9]]], meta=(65535, 65535, 65535)), txn(2, [], meta=(0, 65535, 0)),
@@ -190,7 +190,16 @@ def boundary_histories():
             txn(2, [['store', 1, ['f', 66000, 5]]], kind='abort_after'),
             txn(3, [['store', 2, ['f', 65537, 6]], ['store', 1, ['f', 9, 7]]]),
             txn(4, [['store', 2, ['f', 40, 8]]])]
-    return [('boundary-empty', empties), ('boundary-limits', limits), ('boundary-huge', huge)]
+    faults = [txn(1, [['store', 1, ['f', 60, 1]]])]
+    for j in range(1, 6):
+        faults.append(txn(1 + j, [['store', 1 + j % 2, ['f', 20 + 9 * j, j]], ['store', 7, ['f', 11, j]]],
+                          fault=dict(at=j, errno='ENOSPC' if j % 2 else 'EIO', partial=(j % 2 == 0), retry=True)))
+    faults.append(txn(7, [['store', 1, ['f', 400, 1]], ['store', 2, ['f', 300, 2]]],
+                      fault=dict(at=2, errno='ENOSPC', partial=True, retry=False)))      # given up: a short one follows
+    faults.append(txn(8, [['store', 7, ['f', 3, 3]]]))
+    faults.append(txn(9, [['store', 1, ['f', 5, 9]]]))
+    return [('boundary-empty', empties), ('boundary-limits', limits), ('boundary-huge', huge),
+            ('boundary-faults', faults)]
 
 
 # ---------------------------------------------------------------- real execution
@@ -465,12 +474,19 @@ def run_history(hist, root, pack_after=None, keep_open=False, referencesf=None, 
                     code = getattr(errno, fault.get('errno', 'EIO'))
                     cnt = [0]
 
-                    def hook(ev, code=code, j=fault['at']):
+                    def hook(ev, code=code, j=fault['at'], partial=fault.get('partial')):
                         if ev[0] in ('write', 'trunc', 'fsync'):
                             cnt[0] += 1
                             if cnt[0] == j:
                                 rec.on_event = None
                                 fired.append(ev[:3])
+                                if partial and ev[0] == 'write' and len(ev[3]) > 1:
+                                    # a short write: half of the bytes reach the file, then the error
+                                    part = ev[3][:max(1, len(ev[3]) // 2)]
+                                    with open(os.path.join(root, ev[1]), 'r+b') as raw:
+                                        raw.seek(ev[2])
+                                        raw.write(part)
+                                    rec.events.append(('write', ev[1], ev[2], part))
                                 rec.events.append(('mark', 'fault in %d at raw op %d: %s %s' % (k, j, ev[0], ev[1])))
                                 raise OSError(code, 'vfs injected fault')
                     rec.on_event = hook
@@ -489,10 +505,14 @@ def run_history(hist, root, pack_after=None, keep_open=False, referencesf=None, 
                     rec.on_event = None
                     fs.tpc_abort(md)
                     rec.mark('aborted %d' % k)
-                    rr.fault_notes.append('txn %d: fault at %s raised by tpc_vote, aborted, retried' % (k, fired[0]))
                     if rival:
                         rival.join(5)
-                    continue                    # retry the same transaction
+                    if fault.get('retry', True):
+                        rr.fault_notes.append('txn %d: fault at %s raised by tpc_vote, aborted, retried' % (k, fired[0]))
+                        continue                # retry the same transaction
+                    rr.fault_notes.append('txn %d: fault at %s raised by tpc_vote, aborted, given up' % (k, fired[0]))
+                    rr.outcome.append('fault_given_up')
+                    break
                 rec.mark('voted %d' % k)
                 if live_reads:
                     # newest record first, then older ones: the pooled handle has to refill its read-ahead
@@ -558,6 +578,9 @@ def run_history(hist, root, pack_after=None, keep_open=False, referencesf=None, 
                 if present:
                     rr.outcome.append('in_file_not_returned')
                     publish(k, t, tid, pending, pdata, issued, False)
+                    break
+                if not fault.get('retry', True):
+                    rr.outcome.append('fault_given_up')
                     break
                 # not in the file: retry
             if live_reads and rr.outcome and rr.outcome[-1] != 'fsync_fault' and (k % 2 == 1 or k == len(hist) - 1):
